@@ -13,16 +13,20 @@ PICKLER_LOG = []  # (task id, pickler name in force in the worker when the body 
 
 class Unpicklable:
     """pickling fails — with the error types real objects fail with (PicklingError, an OSError from a closed handle,
-    a TypeError from an un-picklable member)"""
+    a TypeError from an un-picklable member, an IndexError / KeyError from a container's own __reduce__)"""
 
     def __init__(self, how=0):
         self.how = how
 
     def __reduce__(self):
-        if self.how % 3 == 1:
+        if self.how % 5 == 1:
             raise OSError("simulated: handle is closed")
-        if self.how % 3 == 2:
+        if self.how % 5 == 2:
             raise TypeError("simulated: cannot pickle '_thread.lock' object")
+        if self.how % 5 == 3:
+            raise IndexError("simulated: index out of range while pickling")
+        if self.how % 5 == 4:
+            raise KeyError("simulated: missing key while pickling")
         raise pickle.PicklingError("simulated: cannot pickle")
 
 
